@@ -819,6 +819,69 @@ func (env *SpecEnv) evalCall(c *ECall) (Val, types.Type) {
 			return intv(st.card(x.T, x.K)), tInt
 		}
 		sfail("len of unsupported value")
+	case "sumover":
+		// sumover(S, x, e): the sum of the integer expression e(x) over the finite set S (a set value or the key set of a
+		// map). Encoded by one uninterpreted function per (e, heap versions e reads) with the two defining axioms
+		//   sum(empty) = 0      and      x not in V  ==>  sum(V + {x}) = sum(V) + e(x)
+		// assumed where the term is used; equal sets give equal sums by array extensionality.
+		if len(c.Args) != 3 {
+			sfail("sumover(set, var, expr)")
+		}
+		id, ok := c.Args[1].(*EIdent)
+		if !ok {
+			sfail("sumover: second argument must be a variable name")
+		}
+		sv, stp := env.eval(c.Args[0])
+		var setTerm string
+		var kt types.Type = tInt
+		switch x := sv.(type) {
+		case SetV:
+			if x.K != SInt {
+				sfail("sumover: only sets of integers / references / strings")
+			}
+			setTerm = x.T
+			if s2, ok := stp.(*setType); ok {
+				kt = s2.K
+			}
+		case Sc:
+			m, ok := stp.Underlying().(*types.Map)
+			if !ok {
+				sfail("sumover: first argument must be a set or a map")
+			}
+			if vc.leaves(m.Key())[0].Sort != SInt {
+				sfail("sumover: unsupported key sort")
+			}
+			setTerm = st.mapDom(m, x.T, env.snap())
+			kt = m.Key()
+		default:
+			sfail("sumover: first argument must be a set or a map")
+		}
+		vc.counter++
+		xv := fmt.Sprintf("%s!%d", id.Name, vc.counter)
+		e2 := env.withBound(id.Name, nameEntry{V: Sc{xv, SInt}, T: kt})
+		body := e2.evalInt(c.Args[2])
+		canon := strings.ReplaceAll(body, xv, "?x")
+		if vc.sumFns == nil {
+			vc.sumFns = map[string]string{}
+		}
+		name, ok := vc.sumFns[canon]
+		if !ok {
+			name = fmt.Sprintf("sum%d", len(vc.sumFns)+1)
+			vc.sumFns[canon] = name
+			vc.ufs[name] = &UFDecl{Name: name, Params: []string{"set[int]"}, Result: "int"}
+		}
+		f := "uf_" + name
+		if !st.known["sumax:"+name] {
+			st.known["sumax:"+name] = true
+			vc.counter++
+			V := fmt.Sprintf("V!%d", vc.counter)
+			y := fmt.Sprintf("y!%d", vc.counter)
+			by := strings.ReplaceAll(canon, "?x", y)
+			st.assume(fmt.Sprintf("(= (%s ((as const (Array Int Bool)) false)) 0)", f))
+			st.assume(fmt.Sprintf("(forall ((%s (Array Int Bool)) (%s Int)) (! (=> (not (select %s %s)) (= (%s (store %s %s true)) (+ (%s %s) %s))) :pattern ((%s (store %s %s true)))))",
+				V, y, V, y, f, V, y, f, V, by, f, V, y))
+		}
+		return intv(fmt.Sprintf("(%s %s)", f, setTerm)), tInt
 	case "keys":
 		v, t := env.eval(c.Args[0])
 		m, ok := t.Underlying().(*types.Map)
